@@ -1,6 +1,9 @@
 pub mod c01;
 pub mod c02;
 pub mod c05;
+pub mod c07;
+pub mod c08;
+pub mod c09;
 pub mod c13;
 
 /// entry for internal child-process sub-commands
